@@ -693,9 +693,20 @@ class Gen18:
         nk, ni, nl, ival, idur, members, tops = self.nested_program() if r.random() < 0.8 else self.random_program()
         nth = 1 if r.random() < 0.6 else 2
         g = self.group(members, tops, nth=nth)
-        # the cancelling write shrinks an input (stale provisional values become non-least fixpoints)
-        i, f = r.randrange(ni), r.randrange(3)
-        w = ["set", i, f, r.choice([0, 0, 1, 2, 4])]
+        # the cancelling write SHRINKS an input the program reads (a stale provisional value of the old
+        # revision then is a non-least fixpoint of the new equations wherever it was or-ed in)
+        used = []
+
+        def walk(e):
+            if isinstance(e, list):
+                if e and e[0] == "in":
+                    used.append((int(e[1]), int(e[2])))
+                for x in e[1:]:
+                    walk(x)
+        for n in nl:
+            walk(n[3])
+        i, f = r.choice(used) if used and r.random() < 0.85 else (r.randrange(ni), r.randrange(3))
+        w = ["set", i, f, r.choice([0, 0, 0, 1, 2, 4])]
         hist = [["wpar", 0, 0] + g[1:] + [["W", w]]]
         after = list(members) + tops
         r.shuffle(after)
@@ -810,11 +821,12 @@ def parse_harness18(text):
         elif line.startswith("REFO "):
             cur["refo"].append(line.split("r=", 1)[1])
         elif line.startswith("I "):
-            m = re.match(r"I (\d+) b=(\d+) c=(\d+) x=(\d+) y=(\d+) tr=(\d+) xt=(\d+) so=(\d+) it=(\d+) hd=(\d) h=(\S+) t=(\S+) r=(\S*)", line)
+            m = re.match(r"I (\d+) b=(\d+) c=(\d+) x=(\d+) y=(\d+) tr=(\d+) xt=(\d+) so=(\d+) it=(\d+) hd=(\d) hi=(\S+) h=(\S+) t=(\S+) r=(\S*)", line)
             if m:
                 g = m.groups()
                 cur["iters"].append(dict(i=int(g[0]), b=int(g[1]), c=int(g[2]), x=int(g[3]), y=int(g[4]), tr=int(g[5]),
-                                         xt=int(g[6]), so=int(g[7]), it=int(g[8]), hd=int(g[9]), h=g[10], t=g[11], r=g[12]))
+                                         xt=int(g[6]), so=int(g[7]), it=int(g[8]), hd=int(g[9]),
+                                         hi=None if g[10] == "-" else int(g[10]), h=g[11], t=g[12], r=g[13]))
         elif line.startswith("G "):
             it, rest = line[2:].split(" ", 1)
             cur["gs"].setdefault(int(it), []).append(parse_g(rest))
@@ -913,7 +925,8 @@ def check_case18(cid, sp, out, accept=("p8",)):
 
 def stats18(out):
     keys = ("schedules", "with_wait", "with_cross_thread_cycle_answer", "with_transfer", "with_cross_thread_transfer",
-            "with_reclaim_by_new_owner", "with_iteration_ge2", "transfer_records", "cross_thread_transfer_records", "hold_reached")
+            "with_reclaim_by_new_owner", "with_iteration_ge2", "transfer_records", "cross_thread_transfer_records", "hold_reached",
+            "hold_inside_fixpoint_iteration")
     st = dict.fromkeys(keys, 0)
     distinct, distinct_x = set(), set()
     for cid, o in out.items():
@@ -929,6 +942,7 @@ def stats18(out):
             st["transfer_records"] += it["tr"]
             st["cross_thread_transfer_records"] += it["xt"]
             st["hold_reached"] += it["hd"]
+            st["hold_inside_fixpoint_iteration"] += 1 if (it["hi"] or 0) > 0 else 0
             if it["y"] > 0 or it["xt"] > 0:
                 distinct_x.add((cid, it["h"]))
     st["distinct_protocol_traces"] = len(distinct)
